@@ -40,4 +40,48 @@ package keeper
 //@              payments[j] == upd(old(payments[j]), Balance.Amount, old(payments[j].Balance.Amount) + old(payments[j].Rate.Amount) * numFullBlocks)
 //@   loop 1 invariant forall j: int :: iter <= j && j < len(payments) ==> payments[j] == old(payments[j])
 
-//@ property C02 := accountSettleFullblocks#*
+//@ func accountSettleDistributeWeighted
+//@   requires blockRate.Amount > 0 && blockRate.Amount == sumRate(payments, len(payments))
+//@   requires amountRemaining.Amount >= 0 && amountRemaining.Amount < blockRate.Amount
+//@   requires forall i: int :: 0 <= i && i < len(payments) ==> payments[i].Rate.Amount >= 0 && payments[i].Balance.Amount >= 0
+//@   modifies payments[*].Balance
+//@   ensures [share] forall i: int :: 0 <= i && i < len(payments) ==>
+//@              payments[i] == upd(old(payments[i]), Balance.Amount,
+//@                 old(payments[i].Balance.Amount) + (amountRemaining.Amount * old(payments[i].Rate.Amount)) / blockRate.Amount)
+//@   ensures [each] forall i: int :: 0 <= i && i < len(payments) ==>
+//@              (amountRemaining.Amount * old(payments[i].Rate.Amount)) / blockRate.Amount <= old(payments[i].Rate.Amount)
+//@   ensures [acct] result0 == upd(upd(account,
+//@                 Balance.Amount, account.Balance.Amount - old(sumShare(payments, amountRemaining.Amount, blockRate.Amount, len(payments)))),
+//@                 Transferred.Amount, account.Transferred.Amount + old(sumShare(payments, amountRemaining.Amount, blockRate.Amount, len(payments))))
+//@   ensures [rem] result2.Denom == amountRemaining.Denom &&
+//@                 result2.Amount == amountRemaining.Amount - old(sumShare(payments, amountRemaining.Amount, blockRate.Amount, len(payments)))
+//@   ensures [bound] 0 <= result2.Amount && result2.Amount < len(payments)
+//@   ensures [ident] result1 == payments
+//@   loop 1 invariant 0 <= iter && iter <= len(payments)
+//@   loop 1 invariant actualTransferred == old(sumShare(payments, amountRemaining.Amount, blockRate.Amount, iter))
+//@   loop 1 invariant [nl] 0 <= amountRemaining.Amount * old(sumRate(payments, iter)) - blockRate.Amount * actualTransferred
+//@   loop 1 invariant [nu] amountRemaining.Amount * old(sumRate(payments, iter)) - blockRate.Amount * actualTransferred <= iter * (blockRate.Amount - 1)
+//@   loop 1 invariant forall j: int :: 0 <= j && j < iter ==>
+//@              payments[j] == upd(old(payments[j]), Balance.Amount,
+//@                 old(payments[j].Balance.Amount) + (amountRemaining.Amount * old(payments[j].Rate.Amount)) / blockRate.Amount)
+//@   loop 1 invariant forall j: int :: iter <= j && j < len(payments) ==> payments[j] == old(payments[j])
+
+//@ func accountSettleDistributeEvenly
+//@   requires len(payments) > 0 && amountRemaining.Amount >= 0
+//@   modifies payments[*].Balance.Amount
+//@   ensures [share] forall i: int :: 0 <= i && i < len(payments) ==>
+//@              payments[i] == upd(old(payments[i]), Balance.Amount,
+//@                 old(payments[i].Balance.Amount) + amountRemaining.Amount / len(payments) + ite(i < emod(amountRemaining.Amount, len(payments)), 1, 0))
+//@   ensures [acct] result0 == upd(upd(account,
+//@                 Balance.Amount, account.Balance.Amount - amountRemaining.Amount),
+//@                 Transferred.Amount, account.Transferred.Amount + amountRemaining.Amount)
+//@   ensures [zero] result2.Amount == 0 && result2.Denom == amountRemaining.Denom
+//@   ensures [ident] result1 == payments
+//@   loop 1 invariant 0 <= iter && iter <= len(payments)
+//@   loop 1 invariant transferred == baseAmt * iter + min(iter, numOverflow)
+//@   loop 1 invariant forall j: int :: 0 <= j && j < iter ==>
+//@              payments[j] == upd(old(payments[j]), Balance.Amount,
+//@                 old(payments[j].Balance.Amount) + baseAmt + ite(j < numOverflow, 1, 0))
+//@   loop 1 invariant forall j: int :: iter <= j && j < len(payments) ==> payments[j] == old(payments[j])
+
+//@ property C02 := accountSettleFullblocks#*, accountSettleDistributeWeighted#*, accountSettleDistributeEvenly#*
